@@ -101,10 +101,10 @@ Print Assumptions C16_compile_correct_straightline.
 
 (* ---------- statements with control flow are compiled correctly ---------- *)
 (* Fragment psfrag: a top-level sequence of declarations `x := e` and of
-   statements built from assignments `x = e` to globals, `if c … [else …] end`
-   (one condition; no else-if) and `while c … end`, arbitrarily nested, all
-   expressions in efrag (_partial: no else-if chains, break, for loops,
-   block-local declarations, arrays/maps).  The semantics exec_l is a
+   statements built from assignments `x = e` to globals, `if c … {else if c …}
+   [else …] end` chains and `while c … end`, arbitrarily nested, all
+   expressions in efrag (_partial: no break, for loops, block-local
+   declarations, arrays/maps).  The semantics exec_l is a
    fuel-indexed big-step semantics defined in CompileSemProofs.v on top of
    eval_expr (IEEE primitive floats); a while loop consumes fuel per iteration.
    For every such program: if the compiler succeeds and the semantics is
@@ -112,9 +112,12 @@ Print Assumptions C16_compile_correct_straightline.
    the VM model started by NewVM on the compiled program runs to the end of
    the code, halts there with an empty operand stack, and every global slot
    holds the value the semantics gives that variable.  Proof: the compiler's
-   byte-level back-patching is shown to produce the layout LAY (lay_all), and
-   the simulation sim_all goes by induction on the fuel, re-entering a loop at
-   its start pc after the back jump. *)
+   byte-level back-patching is shown to produce the layout LAY (lay_all; for a
+   chain: the code with pending end jumps, LAYC false, is turned into the
+   final one by the patching of compileIfStatement, layc_patch), and the
+   simulation sim_all goes by induction on the fuel, re-entering a loop at
+   its start pc after the back jump and leaving a chain through the end jump
+   of the block that ran. *)
 Theorem C16_compile_correct_ctl_partial : forall (p : slist) (st : cstate) (fuel : nat) (env' : genv),
   psfrag p = true -> compile p = COk st -> exec_l fuel p (fun _ => None) = Some env' ->
   (ldepth p <= Gen.Opcodes.StackSize)%N ->
@@ -270,6 +273,34 @@ Example C16_ex_sem_defined :
   match compile ex_sem with
   | COk st => match vm_run 2000 (program_of (bytecode_of st)) (vm_init (program_of (bytecode_of st))) with
               | FHalted s => nth_error (globals s) 1 = Some (VNum (float_of_Z 7))
+              | _ => False
+              end
+  | CErr _ => False
+  end.
+Proof. vm_compute. repeat split; try reflexivity. discriminate. Qed.
+
+(* x := 0; t := 0; while x < 6: x = x + 1
+     if x == 1: t = t + 10 else if x == 2: t = t + 100 else if x == 3: t = t + 1000 else t = t + 1 end end *)
+Definition ex_elif : slist :=
+  let xeq k := EBin BEq TNum TNum (EVar (s_ "x")) (ENum (float_of_Z k)) in
+  let tadd k := SCons (SAssign (EVar (s_ "t")) (EBin BPlus TNum TNum (EVar (s_ "t")) (ENum (float_of_Z k)))) SNil in
+  SCons (SDecl (s_ "x") (ENum (float_of_Z 0)))
+ (SCons (SDecl (s_ "t") (ENum (float_of_Z 0)))
+ (SCons (SWhile (EBin BLt TNum TNum (EVar (s_ "x")) (ENum (float_of_Z 6)))
+          (SCons (SAssign (EVar (s_ "x")) (EBin BPlus TNum TNum (EVar (s_ "x")) (ENum (float_of_Z 1))))
+          (SCons (SIf (xeq 1%Z) (tadd 10%Z)
+                      (CCons (xeq 2%Z) (tadd 100%Z) (CCons (xeq 3%Z) (tadd 1000%Z) CNil))
+                      (Else (tadd 1%Z))) SNil))) SNil)).
+
+Example C16_ex_elif_defined :
+  psfrag ex_elif = true /\ (ldepth ex_elif <= Gen.Opcodes.StackSize)%N /\
+  match exec_l 40 ex_elif (fun _ => None) with
+  | Some env => env (s_ "x") = Some (VNum (float_of_Z 6)) /\ env (s_ "t") = Some (VNum (float_of_Z 1113))
+  | None => False
+  end /\
+  match compile ex_elif with
+  | COk st => match vm_run 2000 (program_of (bytecode_of st)) (vm_init (program_of (bytecode_of st))) with
+              | FHalted s => nth_error (globals s) 1 = Some (VNum (float_of_Z 1113))
               | _ => False
               end
   | CErr _ => False
